@@ -70,7 +70,9 @@ def gen_cases(tier, seed):
             want = [next((c for c in real if c["mesh"][0] < c["mesh"][1]), None), next((c for c in real if c["mesh"][0] > c["mesh"][1]), None),
                     next((c for c in real if c["mesh"][1] != c["mesh"][2] and c["mesh"][0] == c["mesh"][1]), None)]
             want = [c for c in want if c is not None]
-            pick = want + [c for c in pick if c not in want][:max(0, per - len(want))]
+            fields = [c for c in cs if c.get("kind") == "field"]
+            # (the synthetic-field cases are the only ones that reach all_tetrahedra_relative_grid_address / tetrahedra_integration_weight: keep three)
+            pick = want + fields[::max(1, len(fields) // 3)][:3] + [c for c in pick if c not in want and c.get("kind") != "field"][:max(0, per - len(want) - 3)]
         if sub == "c04":
             pick = [c for c in cs if c.get("kind") in ("primitive", "primitive_explicit")][:per]
         for i, c in enumerate(pick):
